@@ -99,6 +99,8 @@ def check_mstep_shapes(P, R):
         R.analysed(f)
         du = get_defuse(f, P)
         me = f.self_name
+        if not any(isinstance(t, ast.Attribute) and t.attr == attr for st, t, v, k in stores(f)):
+            R.violation("SHAPE.mstep", key, f"self.{attr} = ...", f"the M-step no longer stores the new {attr}: the subspace is never updated")
         for st, t, v, k in stores(f):
             if isinstance(t, ast.Attribute) and t.attr == attr:
                 ok = False
@@ -119,6 +121,8 @@ def check_mstep_shapes(P, R):
                 R.check(ok3, "SHAPE.mstep", key, f"A2 viewed as (components, features, {rank})", "", "A2 is not split per component as (components, features, rank) before it is multiplied with the per-component inverse", st.lineno)
     f = P.func(J + "m_step_d")
     R.analysed(f)
+    if not any(isinstance(t, ast.Attribute) and t.attr == "_D" for st, t, v, k in stores(f)):
+        R.violation("SHAPE.mstep", f.key, "self._D = A2 / A1", "the D M-step no longer stores the new D")
     for st, t, v, k in stores(f):
         if isinstance(t, ast.Attribute) and t.attr == "_D":
             ok = isinstance(v, ast.BinOp) and isinstance(v.op, ast.Div) and "A2" in src(v.left) and "A1" in src(v.right)
@@ -152,7 +156,32 @@ def check_accumulators(P, R):
             R.check(cnt, "POL.A1", f.key, "A1 weighted by the counts", "", "A1 is not weighted by the zeroth-order statistics", r.lineno)
 
 
+PHASE_DEPS = {
+    "finalize_v": ("update_y",), "finalize_u": ("compute_latent_x",),
+    "e_step_v": ("update_y", "compute_accumulators_V"), "e_step_u": ("compute_latent_x", "compute_accumulators_U"),
+    "e_step_d": ("update_z", "compute_accumulators_D"),
+}
+
+
+def check_phase_kernels(P, R):
+    """Each E-step / finalize step returns what its latent-factor update and accumulator kernel computed."""
+    for name, needs in PHASE_DEPS.items():
+        f = P.func(J + name)
+        du = get_defuse(f, P)
+        for r in [x for x in walk_no_nested(f.node) if isinstance(x, ast.Return) and x.value is not None]:
+            c = cone(du, r.value, r, interproc=False)
+            for nd in needs:
+                R.check(any(x.endswith("." + nd) for x in c.calls), "DEP.phase", f.key, f"result derives from {nd}", "", f"{name} returns a value that does not come from {nd}: the phase works with initial (zero) factors or without its accumulators", r.lineno)
+    g = P.func("factor_analysis:ISVMachine.e_step")
+    du = get_defuse(g, P)
+    for r in [x for x in walk_no_nested(g.node) if isinstance(x, ast.Return) and x.value is not None]:
+        c = cone(du, r.value, r, interproc=False)
+        for nd in ("compute_latent_x", "update_z", "compute_accumulators_U"):
+            R.check(any(x.endswith("." + nd) for x in c.calls), "DEP.phase", g.key, f"result derives from {nd}", "", f"ISV e_step result does not come from {nd}", r.lineno)
+
+
 def run(P, R, tier):
+    check_phase_kernels(P, R)
     check_phases(P, R)
     check_mstep_shapes(P, R)
     check_accumulators(P, R)
